@@ -248,6 +248,41 @@ func (nw *verifNet) allCommitted(live []int) bool {
 // (the real Suspend()) after step suspendAt (-1: never).  After the perturbed
 // part, `fair` all-pairs cycles among the live nodes without new submissions.
 func verifNetRun(steps, window, fair int, syncLimit int, suspendAt int, both bool) *verifNet {
+	return verifNetRunHostile(steps, window, fair, syncLimit, suspendAt, both, -1)
+}
+
+// hostile: an outsider's push and sync request with hostile field values, sent
+// to node `to`; they must not crash it nor change its DAG, head or blocks.
+func (nw *verifNet) hostile(to int) {
+	vn := nw.nodes[to]
+	before := vn.dagDigest()
+	we := hg.WireEvent{
+		Body: hg.WireBody{
+			CreatorID:            verifNondetUint32("hostileCreatorID"),
+			OtherParentCreatorID: 0,
+			Index:                verifNondetInt("hostileIndex"),
+			SelfParentIndex:      -1,
+			OtherParentIndex:     -1,
+			Transactions:         [][]byte{[]byte("hostile")},
+		},
+		Signature: "1|1",
+	}
+	if verifCrashFree("hostile-push-does-not-crash-the-node", func() {
+		vn.rpc(&net.EagerSyncRequest{FromID: verifNondetUint32("hostileFromID"), Events: []hg.WireEvent{we}})
+	}) {
+		return
+	}
+	if verifCrashFree("hostile-sync-request-does-not-crash-the-node", func() {
+		vn.rpc(&net.SyncRequest{FromID: 77, SyncLimit: verifNondetInt("hostileSyncLimit"), Known: map[uint32]int{}})
+	}) {
+		return
+	}
+	after := vn.dagDigest()
+	// a push is followed by a self-event of the receiver only if it was accepted
+	verifAssert("hostile-requests-leave-dag-head-and-blocks-unchanged", verifNodeDigestEq(before, after))
+}
+
+func verifNetRunHostile(steps, window, fair int, syncLimit int, suspendAt int, both bool, hostileAt int) *verifNet {
 	const nv = 4
 	nw := verifNewNet(nv, syncLimit, 1000)
 	ls := verifNondetInt("lostSyncMessage")
@@ -271,6 +306,9 @@ func verifNetRun(steps, window, fair int, syncLimit int, suspendAt int, both boo
 			nw.accepted[3] = nw.accepted[3][:len(nw.accepted[3])-1] // it is not owed a commit by the others
 			verifAssert("suspended-node-unchanged-by-submitted-transaction", verifNodeDigestEq(frozen, nw.nodes[3].dagDigest()))
 			continue
+		}
+		if st == hostileAt {
+			nw.hostile(b)
 		}
 		nw.submit(a)
 		err := nw.gossip(a, b)
@@ -389,3 +427,16 @@ func VerifHarness_C05_O6() {
 }
 
 func VerifHarness_C06_O7() { VerifHarness_C05_O6() }
+
+// C08/O7 — hostile input amid node-level gossip, then fair gossip: at a chosen
+// step an outsider sends the next gossip target a push whose wire event has
+// SYMBOLIC creator id and index (and a well-formed signature that cannot
+// verify), and a sync request with a symbolic limit.  The node neither crashes nor changes; the run goes on
+// and after the fair suffix everything accepted is committed by all four nodes
+// ("never makes the node unable to process subsequent valid messages").
+func VerifHarness_C08_O7() {
+	at := []int{3, 9}[verifChoice("hostileInputBeforeStep", 2)]
+	nw := verifNetRunHostile(16, 1, 8, 1000, -1, false, at)
+	_ = nw
+	verifReach("end")
+}
